@@ -176,12 +176,20 @@ type au struct {
 }
 
 func parseAu(b []byte) (ret []au) {
-	// TODO(chef): [fix] 解析b时，没有判断长度有效性 202207
+	// 解析b时，判断长度有效性：数据不足时返回空，由调用方丢弃这个rtp包
+	if len(b) < 2 {
+		Log.Warnf("rtp packet size invalid. len(b)=%d", len(b))
+		return nil
+	}
 
 	// AU Header Section
 	var auHeadersLength uint32
 	auHeadersLength = uint32(b[0])<<8 + uint32(b[1])
 	auHeadersLength = (auHeadersLength + 7) / 8
+	if uint32(len(b)) < 2+auHeadersLength {
+		Log.Warnf("rtp packet size invalid. len(b)=%d, auHeadersLength=%d", len(b), auHeadersLength)
+		return nil
+	}
 
 	// TODO chef: 这里的2是写死的，正常是外部传入auSize和auIndex所占位数的和
 	const auHeaderSize = 2
@@ -210,6 +218,10 @@ func parseAu(b []byte) (ret []au) {
 	if (nbAuHeaders > 1 && pau != uint32(len(b))) ||
 		(nbAuHeaders == 1 && pau < uint32(len(b))) {
 		Log.Warnf("rtp packet size invalid. nbAuHeaders=%d, pau=%d, len(b)=%d, auHeadersLength=%d", nbAuHeaders, pau, len(b), auHeadersLength)
+	}
+	// 多个au必须完整的在当前包中（只有单个au允许跨包）
+	if nbAuHeaders > 1 && pau > uint32(len(b)) {
+		return nil
 	}
 
 	return
